@@ -373,7 +373,11 @@ def decide_path(unit, ctx, res, rng, tier):
     res['solver_s'] += dt
     if r == 'unsat':
         res['discharged'] += len(pending)
-        if unit.opts.get('crosscheck', True) and (tier == 'thorough' or rng.random() < 0.15):
+        if unit.opts.get('crosscheck', True) and (tier == 'thorough' or rng.random() < 0.15) \
+                and res.get('crosscheck_batches', 0) < unit.opts.get('crosscheck_max', 6):
+            # (at most crosscheck_max batches per unit go to the two external solvers: units with
+            # dozens of pivot paths would otherwise spend their whole time budget there)
+            res['crosscheck_batches'] = res.get('crosscheck_batches', 0) + 1
             _crosscheck(script, res, unit, 'batch[%d]' % len(pending))
         return
     # individually
